@@ -1290,7 +1290,9 @@ func (rr *IPSECKEY) parse(c *zlexer, o string) *ParseError {
 		return pErr
 	}
 	rr.PublicKey = s
-	return slurpRemainder(c)
+	// endingToString has read up to and including the end of the line: there is
+	// no remainder, slurpRemainder would eat the start of the next line.
+	return nil
 }
 
 func (rr *AMTRELAY) parse(c *zlexer, o string) *ParseError {
